@@ -7,7 +7,7 @@ use crate::{for_both, hx, Ctx, Tier};
 use blsful::*;
 use serde_json::json;
 
-pub const RULE: &str = "EXHAUSTIVE (t,n) for n<=4 (quick) / n<=5 (thorough) x every subset of every size x 3 ciphertext schemes x 2 groups, plus (2,9),(5,9),(2,255) and in the thorough tier (255,255),(16,32) with subsets of size t-1,t,n. Per split: every participant's decryption share must verify against its own public-key share and the ciphertext (all 3 schemes are required cells); mismatch matrix share i x key-share j x {same ciphertext, another ciphertext to the same key, same (u,v,w) under another scheme label}; decrypt_with_shares(subset) and SignCryptDecryptionKey::from_shares(subset).decrypt(ct): >=t distinct shares must return the message, <t must not; the reference interpolates u*sk from the decryption-share BYTES and opens the ciphertext. Distinct by (suite,scheme,t,n,subset,path).";
+pub const RULE: &str = "EXHAUSTIVE (t,n) for n<=4 (quick) / n<=5 (thorough) x every subset of every size x 3 ciphertext schemes x 2 groups, plus (2,9),(5,9),(2,255) and in the thorough tier (255,255),(16,32) with subsets of size t-1,t,n. Per split: every participant's decryption share must verify against its own public-key share and the ciphertext (all 3 schemes are required cells); mismatch matrix share i x key-share j x {same ciphertext, another ciphertext to the same key, same (u,v,w) under another scheme label}; decrypt_with_shares(subset) and SignCryptDecryptionKey::from_shares(subset).decrypt(ct): >=t distinct shares must return the message, <t must not; the reference interpolates u*sk from the decryption-share BYTES and opens the ciphertext. History clusters (1 quick / 6 thorough per group): for one 2-of-3 split the ciphertext of every scheme, its relabelled copies and a second ciphertext; each participant's share against its own and a foreign key share and each copy, decrypt_with_shares and the decryption key from shares on each copy, asked in ordered pairs (a,b) as a,b,b,a; every answer must equal the answer the question has on its own. Distinct by (suite,scheme,t,n,subset,path).";
 
 pub fn run(ctx: &mut Ctx) {
     for_both!(run_suite, ctx);
@@ -49,6 +49,13 @@ fn run_suite<C: Suite>(ctx: &mut Ctx) {
     g += 1;
     if ctx.mine(g) {
         directed::<C>(ctx, g);
+    }
+    ctx.require(&format!("{n}/history"));
+    for i in 0..ctx.tier.pick(1, 6) {
+        g += 1;
+        if ctx.mine(g) {
+            history_cluster::<C>(ctx, g, i);
+        }
     }
     let s = format!("every (t,n) with n<={nmax} and every subset of every size, per scheme and group");
     if !ctx.exhaustive.contains(&s) {
@@ -219,4 +226,60 @@ fn directed<C: Suite>(ctx: &mut Ctx, g: u64) {
         ctx.hit(&format!("{n}/Basic/decrypt/<t"), &[b"directed", &Vec::from(&ct)]);
         break;
     }
+}
+
+/// One 2-of-3 split and one message: the ciphertext of every scheme, its relabelled copies and a
+/// second ciphertext; every participant's share against its own and a foreign key share and each
+/// copy, and both threshold decryption paths on each copy - asked in ordered pairs as a, b, b, a
+/// (all pairs among the questions about one ciphertext, sampled pairs across ciphertexts).
+fn history_cluster<C: Suite>(ctx: &mut Ctx, g: u64, i: usize) {
+    use super::history::{family_pairs, q, sandwich_pairs, Q};
+    let mut rng = ctx.rng(g);
+    let n = C::NAME;
+    let k = gen::random_scalar(&mut rng);
+    let sk = sk_from_rs::<C>(&k);
+    let pk = sk.public_key();
+    let msg = gen::message([24usize, 3, 33, 130, 8, 64][i % 6], Content::Random, &mut rng);
+    let Ok(shares) = sk.split(2, 3) else { return };
+    let Ok(pks) = shares.iter().map(|s| s.public_key()).collect::<Result<Vec<PublicKeyShare<C>>, _>>() else { return };
+    type A = Option<Vec<u8>>;
+    let verdict = |b: bool| -> A { Some(vec![b as u8]) };
+    let mut qs: Vec<Q<A>> = Vec::new();
+    let pksr = &pks;
+    for s1 in SCHEMES {
+        let ct = pk.sign_crypt(lscheme(s1), &msg);
+        let Ok(ds) = shares.iter().map(|s| ct.create_decryption_share(s)).collect::<Result<Vec<SignDecryptionShare<C>>, _>>() else { return };
+        let mut copies: Vec<(String, bool, SignCryptCiphertext<C>)> = Vec::new();
+        for s2 in SCHEMES {
+            let mut c = ct.clone();
+            c.scheme = lscheme(s2);
+            copies.push((format!("label-{}", s2.name()), s1 == s2, c));
+        }
+        copies.push(("another-ciphertext".into(), false, pk.sign_crypt(lscheme(s1), &msg)));
+        let fam = format!("sealed-{}", s1.name());
+        for (vn, honest, c) in copies {
+            for p in 0..3usize {
+                for kj in [p, (p + 1) % 3] {
+                    let (share, cc) = (ds[p].clone(), c.clone());
+                    qs.push(q(format!("{fam}/{vn}/share-{p}-against-key-share-{kj}"), verdict(honest && kj == p), move || verdict(share.verify(&pksr[kj], &cc).is_ok())));
+                }
+            }
+            if vn == "another-ciphertext" {
+                // shares of one ciphertext applied to another give an unrelated mask (no key
+                // confirmation, see D11): what comes back is not specified, so it is not asked
+                continue;
+            }
+            let two = vec![ds[0].clone(), ds[2].clone()];
+            let (c1, c2, t1, t2) = (c.clone(), c, two.clone(), two);
+            let plain: A = if honest { Some(msg.clone()) } else { None };
+            // shares made for the ORIGINAL ciphertext, presented with the copy
+            qs.push(q(format!("{fam}/{vn}/decrypt_with_shares"), plain.clone(), move || ct_some(c1.decrypt_with_shares(&t1))));
+            qs.push(q(format!("{fam}/{vn}/decryption-key-from-shares"), plain.clone(), move || SignCryptDecryptionKey::<C>::from_shares(&t2).ok().and_then(|dk| ct_some(dk.decrypt(&c2)))));
+        }
+    }
+    let pairs = family_pairs(&qs, ctx.tier.pick(200, 800), &mut rng);
+    let d = || json!({"suite":n,"sk":hex::encode(k.to_be_bytes()),"msg":hx(&msg),"t":2,"n":3,"note":"verdicts answer [1]/[0]; decrypt questions answer the plaintext or null"});
+    let mut cid = k.to_be_bytes().to_vec();
+    cid.extend_from_slice(&msg);
+    sandwich_pairs(ctx, "C12", &format!("{n}/history"), "shares-and-copies", &cid, &d, &qs, &pairs);
 }
